@@ -7,15 +7,38 @@ sys.dont_write_bytecode = True
 from concurrent.futures import ProcessPoolExecutor
 from selftest import runner, benign
 PROPS = ['C%02d' % i for i in range(1, 21)]
+# the properties whose behaviour flows through each file (as in tools/mutants.py); with --all every property is run
+RELEVANT = {
+ 'desper/events.py': ['C02', 'C03', 'C04', 'C10', 'C13', 'C15', 'C19', 'C20'],
+ 'desper/loop.py': ['C04', 'C12', 'C13', 'C14'],
+ 'desper/logic/world.py': ['C01', 'C02', 'C04', 'C05', 'C06', 'C07', 'C10', 'C15', 'C19'],
+ 'desper/logic/coroutines.py': ['C08', 'C09'],
+ 'desper/logic/__init__.py': ['C10', 'C19'],
+ 'desper/logic/spatial.py': ['C20'],
+ 'desper/model/tree.py': ['C11', 'C12', 'C13', 'C15', 'C16', 'C17'],
+ 'desper/model/world.py': ['C12', 'C13', 'C15'],
+ 'desper/model/__init__.py': ['C16'],
+ 'desper/math.py': ['C18'],
+ 'desper/bisect.py': ['C07'],
+}
+ALL = '--all' in sys.argv
+def props_for(kind, payload):
+    if ALL or kind != 'B':
+        return PROPS
+    files = [l[6:].strip() for l in open(payload) if l.startswith('+++ b/')]
+    out = set()
+    for f in files:
+        out |= set(RELEVANT.get(f, PROPS))
+    return sorted(out) or PROPS
 def work(job):
     name, kind, payload = job
     row = {}
-    for p in PROPS:
+    for p in props_for(kind, payload):
         n, k, outcome, info = runner._run_variant((p, '/repo', kind, name, payload))
         if outcome not in ('silent',): row[p] = (outcome, info[:230])
     return name, row
 if __name__ == '__main__':
-    only = sys.argv[1:]
+    only = [a for a in sys.argv[1:] if not a.startswith('--')]
     jobs = []
     for d in sorted(os.listdir('/verif/benign')):
         if only and d not in only and d.split('-')[0] not in only: continue
